@@ -97,6 +97,7 @@ func (c08) Gen(seed uint64, idx int, tier string) *Scenario {
 			pi.Off = len(p.Src)
 		}
 		pi.Lex = pl.Kind == "ct.lex" || pl.Kind == "ct.unterminated"
+		pi.Exact = gen.ExactCompilePlants[pl.Kind]
 		sc.Plants = append(sc.Plants, pi)
 	}
 	// occasionally damage an unplanted source: only the byte-level oracle applies then
@@ -341,6 +342,8 @@ func checkPlants(plants []PlantInfo, x *srcIndex, ds []diag, rtErr string, o *Ou
 					}
 				case pl.Kind == "ct.missingoperand":
 					okAt = okAt || d.off == len(x.src)
+				case pl.Exact:
+					okAt = okAt || d.off == pl.Off
 				default:
 					// a token end inside the planted statement, or the first token end after it
 					if d.off >= pl.Lo && d.off <= pl.Hi {
@@ -361,7 +364,9 @@ func checkPlants(plants []PlantInfo, x *srcIndex, ds []diag, rtErr string, o *Ou
 				continue
 			}
 			o.probe("plant_hit."+pl.Kind, 1)
-			if !okAt {
+			if !okAt && pl.Exact {
+				problems = append(problems, fmt.Sprintf("%s: diagnostics at %v, but the offending token ends at %d - lie outside the planted statement's offending token (%s)", pl.Kind, seen, pl.Off, stage))
+			} else if !okAt {
 				problems = append(problems, fmt.Sprintf("%s: diagnostics %v lie outside the planted statement [%d,%d] (%s)", pl.Kind, seen, pl.Lo, pl.Hi, stage))
 			}
 		}
